@@ -206,11 +206,17 @@ def run_case(env, kind, depth, injections, caller, envs, varsloc, entry, source_
                 if source_path:
                     kwargs["source_path"] = env.pipefile
                 pipe = ProcessingPipeline.from_yaml(yaml.safe_dump(doc), **kwargs)
+            elif entry == "resolver-dir":  # the pipeline file is found through a directory spec
+                with open(env.pipefile, "w") as f:
+                    yaml.safe_dump(doc, f)
+                pipe = ProcessingPipelineResolver().resolve([os.path.dirname(env.pipefile)])
             else:  # resolver from file (always default arguments, source_path = the file)
                 with open(env.pipefile, "w") as f:
                     yaml.safe_dump(doc, f)
                 pipe = ProcessingPipelineResolver().resolve([env.pipefile])
-            rule = SigmaRule.from_dict({"title": "t", "logsource": {"category": "c"}, "detection": {"sel": {"f|expand": "%P%"}, "condition": "sel"}})
+            # placeholders in a string, in a regular expression and in a keyword
+            rule = SigmaRule.from_dict({"title": "t", "logsource": {"category": "c"}, "detection": {"sel": {"f|expand": "%P%"}, "sel2": {"h|re|expand": "^%P%$"}, "kw": {"|expand": ["x%P%"]},
+                                                                                                     "condition": ["sel", "sel2", "kw"]}})
             backend = V.make_backend_class(V.K())(pipe)
             out = backend.convert(SigmaCollection([rule]))
             outcome = ("ok", str(out)[:80])
@@ -220,7 +226,7 @@ def run_case(env, kind, depth, injections, caller, envs, varsloc, entry, source_
             # (every capability event of these attempts is recorded with the case)
             for attempt in range(2):
                 try:
-                    r2 = SigmaRule.from_dict({"title": f"t{attempt}", "logsource": {"category": "c"}, "detection": {"sel": {"g|expand": "%P%"}, "condition": "sel"}})
+                    r2 = SigmaRule.from_dict({"title": f"t{attempt}", "logsource": {"category": "c"}, "detection": {"sel": {"g|expand": "%P%"} if attempt == 0 else {"g|re|expand": "a%P%"}, "condition": "sel"}})
                     if "backend" in locals():
                         backend.convert(SigmaCollection([r2]))
                     elif "pipe" in locals():
@@ -269,11 +275,11 @@ def judge(res, env, kind, depth, injections, caller, envs, varsloc="inside", ent
         res["nontrivial"].add(h64(case))
     events, outcome = run_case(env, kind, depth, injections, caller, envs, varsloc, entry, source_path)
     hits = capability_events(kind, events, varsloc)
-    restricted = caller.get("vars_allowed_paths") is not None or (entry == "from_yaml" and source_path) or entry == "resolver"
+    restricted = caller.get("vars_allowed_paths") is not None or (entry == "from_yaml" and source_path) or entry in ("resolver", "resolver-dir")
     allowed = policy(kind, caller, envs, depth, varsloc, restricted)
     if caller.get("vars_allowed_paths") == () and kind in ("post_template", "fin_template") and allowed:
         allowed = False  # an empty list of allowed directories is in force: no variables file lies inside it
-    if entry == "resolver":
+    if entry in ("resolver", "resolver-dir"):
         allowed = policy(kind, {}, envs, depth, varsloc, True)
     res["outcomes"].add(h64([bool(hits), outcome[0]]))
     where = "top" if depth == 0 else f"nested{depth}"
@@ -363,12 +369,14 @@ def run_shard(shard, tier, seed):
             res["samples"].append({"sub": "vars", "kind": kind, "location": "symlink", "vars_allowed_paths": "allowed/"})
         else:
             for kind in KINDS:
-                for entry in ("from_yaml", "from_dict", "resolver"):
+                for entry in ("from_yaml", "from_dict", "resolver", "resolver-dir"):
                     for inj in ([], [(0, "allow_external_sources", True)], [(0, "allow_template_vars", True)], [(0, "vars_allowed_paths", ["/"])]):
                         for loc in ("inside", "outside"):
                             judge(res, env, kind, 0, inj, {}, {}, varsloc=loc, entry=entry, sub="entry")
                     for ev in ("1", None):
-                        judge(res, env, kind, 0, [], {}, {EXT_ENV: ev, VARS_ENV: ev}, varsloc="outside", entry="resolver", sub="entry-env")
+                        for entry in ("resolver", "resolver-dir"):
+                            for loc in ("outside", "inside", "sibling"):
+                                judge(res, env, kind, 0, [], {}, {EXT_ENV: ev, VARS_ENV: ev}, varsloc=loc, entry=entry, sub="entry-env")
             res["samples"].append({"sub": "entry", "entry": "resolver"})
     finally:
         env.close()
